@@ -134,6 +134,17 @@ def judge(case, impl_res, ans):
     exp_d = [None if c in sm['nan_idx'] else float(x) / sm['sample_rate'] * 1e3 for c, x in enumerate(res[5]['durations'])]
     if ptt is None or (not _close(ptt['vals'], exp_d, 1e-9) and sm['spike_clusters'] == sm['spike_templates']):
         return 'SPEC: clusters.peakToTrough %s differ from peak-to-trough durations in ms %s' % (ptt and ptt['vals'], exp_d)
+    # curated clusters: the same two tables recomputed in floating point from the cluster waveforms the
+    # source model shows (weighted means; the exact-rational model is used for un-curated data only)
+    W = np.array(sm['clusters_wfs'], dtype=np.float64)
+    if W.size and cc is not None and ptt is not None:
+        pk = (W.max(axis=1) - W.min(axis=1)).argmax(axis=1)
+        if cc['vals'] != pk.tolist():
+            return 'SPEC: clusters.channels %s are not the peak channels of the cluster waveforms %s' % (cc['vals'], pk.tolist())
+        dur = (W.argmax(axis=1) - W.argmin(axis=1))[np.arange(len(W)), pk].astype(np.float64) / sm['sample_rate'] * 1e3
+        exp_d2 = [None if c in sm['nan_idx'] else float(x) for c, x in enumerate(dur)]
+        if not _close(ptt['vals'], exp_d2, 1e-9):
+            return 'SPEC: clusters.peakToTrough %s differ from the peak-to-trough durations of the cluster waveforms %s' % (ptt['vals'], exp_d2)
     cd = _find(ok, 'clusters.depths', label)
     exp_cd = [DC.to_float(x) for x in res[6]['cluster_depths']]
     if cd is None or not _close(cd['vals'], exp_cd, 1e-12):
@@ -145,6 +156,8 @@ def judge(case, impl_res, ans):
             return 'SPEC: spikes.depths (no features) are not the cluster depths'
     elif sd is None or sd['shape'] != [len(sm['spike_clusters'])]:
         return 'SPEC: spikes.depths shape'
+    elif sm.get('depths') is not None and not _close(sd['vals'], sm['depths'], 1e-6):
+        return 'SPEC: spikes.depths differ from the feature-weighted depths of the source model (C09)'
     return None
 
 
